@@ -339,6 +339,52 @@ fn many_hunks(run: &Run) {
     run.count("unchanged_backups_of_versions_with_more_than_10000_hunks", 1);
 }
 
+/// Scale: one index hunk of tens of megabytes (a 16 MiB file stored in 64-byte blocks has
+/// 262 144 addresses), in a tree that grows: a+b, then a+b+c+the big file, then unchanged.
+fn huge_hunk(run: &Run) {
+    let mut spec = tree::Snapshot::new();
+    spec.insert("/".into(), tree::Node::dir());
+    for (i, name) in ["/a", "/b"].iter().enumerate() {
+        let mut n = tree::Node::file(format!("small file {name}").into_bytes());
+        n.mtime_s = 1_650_000_000 + i as i64;
+        spec.insert((*name).into(), n);
+    }
+    let o = Opts { hunk: 100_000, block: 64, cap: 100 };
+    let mut w = World::with_spec("c14h", spec, GenParams::small(64, 100), run.seed);
+    run.eval();
+    let replay = json!({"huge_hunk": true});
+    let r0 = w.backup(o);
+    let mut spec = w.spec.clone();
+    let mut c = tree::Node::file(b"small file /c".to_vec());
+    c.mtime_s = 1_650_000_010;
+    spec.insert("/c".into(), c);
+    let mut big = tree::Node::file([b'x'; 64].repeat(262_144));
+    big.mtime_s = 1_650_000_011;
+    spec.insert("/zbig".into(), big);
+    w.set_spec(spec);
+    let r1 = w.backup(o);
+    let r2 = w.backup(o);
+    for r in [&r0, &r1, &r2] {
+        if !r.backup.as_ref().unwrap().clean() {
+            run.violation("huge-hunk-backup-not-clean", format!("{}: {}", r.desc, r.backup.as_ref().unwrap().describe().chars().take(300).collect::<String>()), replay);
+            return;
+        }
+    }
+    let writes = block_writes(&r2.events);
+    if !writes.is_empty() {
+        run.violation("unchanged-tree-wrote-blocks", format!("[tree with a 16 MiB file in 64-byte blocks: one hunk of tens of megabytes] third backup of the unchanged tree issued {} block writes, first {}", writes.len(), writes[0].brief()), replay);
+        return;
+    }
+    let raw = w.raw(false);
+    let (a, b) = (addrs_by_path(&raw, 1), addrs_by_path(&raw, 2));
+    if a != b || a.get("/zbig").map(|v| v.len()).unwrap_or(0) != 262_144 {
+        run.violation("unchanged-tree-recorded-different-addresses", format!("[huge hunk] {} vs {} file entries, /zbig has {:?} addresses", a.len(), b.len(), a.get("/zbig").map(|v| v.len())), replay);
+        return;
+    }
+    run.count("unchanged_tree_backups", 1);
+    run.count("unchanged_backups_over_a_hunk_of_tens_of_megabytes", 1);
+}
+
 /// Scale: blocks of many megabytes. Identical large files, and a file made of identical
 /// large blocks, are stored once -- within one run (the second occurrence is known from the
 /// first) and across runs.
@@ -426,8 +472,11 @@ pub fn run(tier: Tier, replay: Option<Value>) -> i32 {
         if replay.is_none() || replay.as_ref().and_then(|r| r.get("large_blocks")).is_some() {
             large_blocks(&run);
         }
+        if replay.is_none() || replay.as_ref().and_then(|r| r.get("huge_hunk")).is_some() {
+            huge_hunk(&run);
+        }
     };
-    let scale_replay = replay.as_ref().map(|r| r.get("many_hunks").is_some() || r.get("large_blocks").is_some()).unwrap_or(false);
+    let scale_replay = replay.as_ref().map(|r| r.get("many_hunks").is_some() || r.get("large_blocks").is_some() || r.get("huge_hunk").is_some()).unwrap_or(false);
     if replay.is_none() {
         // the scale scenarios are sequential: started first and run alongside the bulk
         super::alongside(&run, "the scale scenarios", scale, bulk);
@@ -437,10 +486,10 @@ pub fn run(tier: Tier, replay: Option<Value>) -> i32 {
         bulk();
     }
     let needs: &[(&str, u64)] = if replay.is_some() { &[] } else {
-        &[("large_block_scenarios", 2), ("large_block_writes_observed", 4), ("unchanged_backups_of_versions_with_more_than_10000_hunks", 1), ("unchanged_tree_backups", 10), ("block_writes_observed", 100), ("resume_crash_points", 100), ("crash_points_with_recorded_file_entries", 20), ("recorded_entries_compared", 50), ("unchanged_resume_crash_points", 100), ("read_fault_runs", 100)]
+        &[("large_block_scenarios", 2), ("large_block_writes_observed", 4), ("unchanged_backups_of_versions_with_more_than_10000_hunks", 1), ("unchanged_backups_over_a_hunk_of_tens_of_megabytes", 1), ("unchanged_tree_backups", 10), ("block_writes_observed", 100), ("resume_crash_points", 100), ("crash_points_with_recorded_file_entries", 20), ("recorded_entries_compared", 50), ("unchanged_resume_crash_points", 100), ("read_fault_runs", 100)]
     };
     run.finish(
-        "clause 1: in histories, a second backup of an untouched tree (same or different options; every other time with the owner option switched off) must issue zero block writes, report written_blocks == 0 and record identical addresses for every file (independent decode); clause 2: in every backup of every history each block write is issued only for a name whose file is absent or zero-length, and at most once (attempts are counted, from the interceptor log with pre-states); clause 3: for EVERY crash point k of the C03 scenarios' backup trace, the run is killed before k and then resumed with the same options: no block file left non-empty by the interrupted run is written again, every file entry recorded in the interrupted run's hunks reappears with identical addresses, and unmodified_files >= their number; and for trees that have not changed since the last complete version, a backup killed at EVERY point followed by another backup must still write no block and record that version's addresses. Also, clause 2 under single faults: every read / list_dir / metadata operation of a backup's trace fails once with each of 4 kinds, and still no block write may be issued for a name whose file exists non-empty. Scale: a 10 040-file tree with one entry per hunk backed up twice (no block written, same addresses); two scenarios with blocks of 9-20 MiB (two identical 21 MiB files and two identical 9 MiB files under default options; one 27 MiB file of three identical 9 MiB blocks): each block is written once, a second backup writes none, the restore is exact. Distinct = histories with an unchanged-tree pair / (scenario, k) with recorded entries.",
+        "clause 1: in histories, a second backup of an untouched tree (same or different options; every other time with the owner option switched off) must issue zero block writes, report written_blocks == 0 and record identical addresses for every file (independent decode); clause 2: in every backup of every history each block write is issued only for a name whose file is absent or zero-length, and at most once (attempts are counted, from the interceptor log with pre-states); clause 3: for EVERY crash point k of the C03 scenarios' backup trace, the run is killed before k and then resumed with the same options: no block file left non-empty by the interrupted run is written again, every file entry recorded in the interrupted run's hunks reappears with identical addresses, and unmodified_files >= their number; and for trees that have not changed since the last complete version, a backup killed at EVERY point followed by another backup must still write no block and record that version's addresses. Also, clause 2 under single faults: every read / list_dir / metadata operation of a backup's trace fails once with each of 4 kinds, and still no block write may be issued for a name whose file exists non-empty. Scale: a 10 040-file tree with one entry per hunk backed up twice (no block written, same addresses); a tree that grows to include a 16 MiB file stored in 64-byte blocks (262 144 addresses: one hunk of tens of megabytes) and is then backed up unchanged; two scenarios with blocks of 9-20 MiB (two identical 21 MiB files and two identical 9 MiB files under default options; one 27 MiB file of three identical 9 MiB blocks): each block is written once, a second backup writes none, the restore is exact. Distinct = histories with an unchanged-tree pair / (scenario, k) with recorded entries.",
         &["kill = no later storage effect", "E2 reader trusted"],
         Some(true),
         needs,
